@@ -17,7 +17,7 @@ CHECKS = {
     ),
     "C01": (
         "exploration",
-        "conservation oracle (interval partition of every input contig over all output assemblies pooled) on every completed remap of seeded PretextView-model, hostile, designed-tag and two-haplotype maps; CLI slice re-parses the written TPF/AGP files with independent parsers, incl. a second run after the FASTA was replaced at the same path with the cache files' mtime; API inputs are built from one working list refilled per scaffold",
+        "conservation oracle (interval partition of every input contig over all output assemblies pooled) on every completed remap of seeded PretextView-model, hostile, designed-tag and two-haplotype maps; CLI slice re-parses the written TPF/AGP files with independent parsers, with the indexer on small buffers, incl. a second run after the FASTA was replaced at the same path with the cache files' mtime; API inputs are built from one working list refilled per scaffold",
         "Every completed run of the workloads (in-memory and through the CLI's written files) is checked for lost, duplicated or invented bases; runs that end in an error are counted by exception type and raising function.",
         "Valid input assemblies (disjoint contig intervals, unique scaffold names); any exception counts as 'ends in an error'.",
         "3-C01",
@@ -52,7 +52,7 @@ CHECKS = {
     ),
     "C08": (
         "exploration",
-        "null-map workload (whole, uncut, unpainted or all-painted scaffolds at every texel size with Pretext's end rounding, sub-texel scaffolds present/absent, inputs with leading/trailing gaps and haplotype-prefixed names) with identity + zero-statistics oracle; every 25th map also through the pretext-to-asm CLI (one assembly file, contents, zero statistics in log and info YAML); FASTA-input leg (LF/CRLF) run with cold and warm index cache; contig names that look like assembly-name prefixes; input text in other legal spellings (N-type gaps, TPF method column, whole-number texel header)",
+        "null-map workload (whole, uncut, unpainted or all-painted scaffolds at every texel size with Pretext's end rounding, sub-texel scaffolds present/absent, inputs with leading/trailing gaps and haplotype-prefixed names) with identity + zero-statistics oracle; every 25th map also through the pretext-to-asm CLI (one assembly file, contents, zero statistics in log and info YAML); FASTA-input leg (LF/CRLF, small indexer buffers, sequences and AGP rows compared) run with cold and warm index cache; contig names that look like assembly-name prefixes; input text in other legal spellings (N-type gaps, TPF method column, whole-number texel header)",
         "Each generated null map must give exactly one (primary) assembly with the input scaffolds by name and row-for-row, zero cuts/breaks/joins; painted variant: same row lists, names prefix+rank by non-increasing sequence length.",
         "Last-contig precondition applied as > ceil(t)+1 bp; order compared by name; scaffold-terminal input gaps are not expected in the output (C07).",
         "3-C08",
@@ -115,14 +115,14 @@ CHECKS = {
     ),
     "C16": (
         "exploration",
-        "audit hook (sys.addaudithook: open flags / rename / remove / truncate on pre-existing output paths) around the real CLI in process + post-run bytes/inode/mtime comparison, exit status and error text; hostile legs (symlinked / dangling / empty pre-existing paths, a competitor creating the file just before the open, injected from the audit hook); strace on the console entry point as independent observer; --clobber leg vs reference run; two invocations in one process under different output names; logging already configured by the caller",
+        "audit hook (sys.addaudithook: open flags / rename / remove / truncate on pre-existing output paths) around the real CLI in process + post-run bytes/inode/mtime comparison, exit status and error text; hostile legs (symlinked / dangling / empty pre-existing paths, a competitor creating the file just before the open, injected from the audit hook); strace on the console entry point as independent observer; --clobber leg vs reference run; two invocations in one process under different output names; runs at --log-level ERROR; logging already configured by the caller",
         "For each generated case the output file set is fixed by a reference run; every non-empty subset (<=6 files) or singletons+full+sampled subsets is pre-created with sentinels and the CLI run with --no-clobber under the monitors, over FASTA/AGP/TPF output, log on/off, single- and multi-assembly designs.",
         "The FASTA index cache is not an output file; 'completely rewritten' = byte equality with the reference run.",
         "3-C16",
     ),
     "C17": (
         "exploration",
-        "differential observer: byte equality of all output files between a reference run and runs differing in one axis (PYTHONHASHSEED subprocesses, cwd, stream buffer, cache cold/warm, earlier AND later invocations in the same process, other content at the same path earlier in the process, relative paths from another directory with out-of-date caches, fresh interpreter with and without -O); tag-noise cases (several special tags per scaffold, pairs of set-aside tags on one piece) under 6-12 hash seeds; FASTA/AGP/TPF input leg; asm-format; the 12 specimens",
+        "differential observer: byte equality of all output files between a reference run and runs differing in one axis (PYTHONHASHSEED subprocesses, cwd, stream buffer, cache cold/warm, earlier AND later invocations in the same process, other content at the same path earlier in the process, relative paths from another directory with out-of-date caches, fresh interpreter with and without -O); tag-noise cases (several special tags per scaffold, pairs of set-aside tags on one piece) under 6-12 hash seeds; FASTA/AGP/TPF input leg; asm-format (hash seeds, re-runs, working directory, AGP vs TPF input with blank lines, second of two files); the 12 specimens",
         "Each generated case (tag-rich designs incl. two haplotypes) and each specimen is run along every axis and all files compared byte for byte.",
         "Same output directory for all runs of a case, so absolute paths in logs coincide by construction.",
         "3-C17",
